@@ -15,7 +15,7 @@ CPU = "/sys/devices/system/cpu"
 FAULTS = ("absent", "EACCES", "EIO", "ENODEV", "ENXIO", "garbage")
 SUBJECTS = ("temps", "temps_f", "fans", "battery", "cpu_freq",
             "cpu_freq_percpu", "cpu_count", "cpu_count_cores", "cpu_stats",
-            "boot_time")
+            "boot_time", "boot_time_history")
 
 
 def readable(files, path):
@@ -41,7 +41,7 @@ def num(files, path, conv=float):
 
 class SysFs(EngineBase):
     name = "sysfs"
-    SHRINK_LISTS = []
+    SHRINK_LISTS = [("steps",)]
 
     def boot_config(self, rng):
         b = EngineBase.boot_config(self, rng)
@@ -483,6 +483,37 @@ class SysFs(EngineBase):
 
         subject = plan["subject"]
         meta = plan["meta"]
+        if subject == "boot_time_history":
+            # histories of wall-clock steps (the published btime moves) with
+            # boot_time() and Process.create_time() calls in between: every
+            # boot_time() must mirror the btime line of that moment
+            k.begin_op(1)
+            n = 0
+            for step in plan.get("steps") or []:
+                if step[0] == "step":
+                    k.apply_event({"ev": "clock_step", "delta": step[1]})
+                    continue
+                try:
+                    if step[0] == "ctime":
+                        psutil.Process(k.self_pid).create_time()
+                        continue
+                    val = psutil.boot_time()
+                except BaseException as e:  # noqa: BLE001
+                    if is_harness_exc(e):
+                        raise
+                    V("C19.exact", [type(e).__name__, "history"], subject,
+                      "boot_time() raised %r" % (e,))
+                    break
+                n += 1
+                if val != float(k.btime()):
+                    V("C19.exact", ["history", "stale_boot_time"], subject,
+                      "boot_time() -> %r after the steps %r, /proc/stat "
+                      "says btime %d" % (val, plan["steps"], k.btime()))
+                    break
+            k.end_op()
+            return {"violations": viol, "touched": [], "outcome":
+                    "history%d" % n, "digest": k.digest.hexdigest(),
+                    "stats": dict(k.stats)}
         norm = {p: (n if isinstance(n, dict) else {"t": "f", "data": n})
                 for p, n in files.items()}
         for n in norm.values():
@@ -663,6 +694,19 @@ class SysFs(EngineBase):
         for subject in SUBJECTS:
             base = {"world": world, "meta": meta, "subject": subject,
                     "fault": None}
+            if subject == "boot_time_history":
+                steps = []
+                for _ in range(rng.randrange(3, 10)):
+                    r = rng.random()
+                    if r < 0.45:
+                        steps.append(["step", rng.choice(
+                            [1, -1, 1, -1, 2, -2, 0.5, 3600, -86400, 0])])
+                    elif r < 0.9:
+                        steps.append(["call"])
+                    else:
+                        steps.append(["ctime"])
+                steps.append(["call"])
+                base["steps"] = steps
             dry = W.execute_forked(base)
             u["evals"] += 1
             if not self._absorb(u, base, dry, (subject, "nofault", "-")):
